@@ -55,6 +55,11 @@ macro_rules! impl_parse {
                     }
 
                     $input.parse::<syn::Token![,]>()?;
+
+                    // a trailing comma, as in `#[serde(rename_all = "camelCase",)]`
+                    if $input.is_empty() {
+                        break;
+                    }
                 }
 
                 Ok($out)
@@ -128,6 +133,11 @@ macro_rules! impl_parse {
                     }
 
                     $input.parse::<syn::Token![,]>()?;
+
+                    // a trailing comma, as in `#[serde(rename_all = "camelCase",)]`
+                    if $input.is_empty() {
+                        break;
+                    }
                 }
 
                 Ok($out)
